@@ -228,6 +228,7 @@ structure Ref where
   to : Name
   map : Bool
   vec : Bool
+  wrap : Bool := false       -- the mention is not the whole type (it sits below Option / Vec / EventStream / a map)
   arr : Bool := false        -- below a Vec/Option that is itself inside a Vec: part of an opaque `Vec<X>` / `Option<X>` atom
 deriving DecidableEq, Repr, Inhabited
 
@@ -274,7 +275,7 @@ deriving Repr, Inhabited
 inductive Viol
   | undefinedType (name : Name)
   | privateAcross (file name : Name)
-  | serde (item target : Name) (ser viaMap viaArr : Bool)
+  | serde (item target : Name) (ser viaMap viaArr viaResp : Bool)
   | headerOptMismatch (item : Name)
   | nestedNoValidate (item target : Name)
   | lengthNeedsSer (item target : Name)
@@ -327,8 +328,8 @@ def serdeViols (m : Mod) : List Viol :=
     it.fields.flatMap fun fd => fd.refs.flatMap fun r =>
       -- a response enum needs its payload types decodable (client: parse_response) / encodable (server: axum::Json)
       let server := m.mode == "server-mod".toList
-      (if it.ser || (it.respEnum && server) then (incapable m (·.ser) 4 r.to r.map r.arr).map fun (t, mp, ar) => Viol.serde it.name t true mp ar else []) ++
-      (if it.de || (it.respEnum && !server) then (incapable m (·.de) 4 r.to r.map r.arr).map fun (t, mp, ar) => Viol.serde it.name t false mp ar else [])
+      (if it.ser || (it.respEnum && server) then (incapable m (·.ser) 4 r.to r.map r.arr).map fun (t, mp, ar) => Viol.serde it.name t true mp ar (it.respEnum && r.wrap) else []) ++
+      (if it.de || (it.respEnum && !server) then (incapable m (·.de) 4 r.to r.map r.arr).map fun (t, mp, ar) => Viol.serde it.name t false mp ar (it.respEnum && r.wrap) else [])
 
 def nameViols (m : Mod) : List Viol :=
   (m.mentions.flatMap fun (file, names) =>
@@ -388,7 +389,11 @@ def WF (m : Mod) : Bool := (violations m).isEmpty
 def classOf (m : Mod) : Viol → Option String
   | .undefinedType n => if m.schemas.contains n then some "KnownSchemaNotEmitted" else none
   | .privateAcross _ _ => if m.visFile then some "KnownFileVisModule" else none
-  | .serde _ _ _ viaMap viaArr => if viaMap then some "KnownSerdeMapEdge" else if viaArr then some "KnownSerdeNestedArrayEdge" else none
+  | .serde _ _ _ viaMap viaArr viaResp =>
+      if viaMap then some "KnownSerdeMapEdge" else if viaArr then some "KnownSerdeNestedArrayEdge"
+      -- a response variant's payload type is rebuilt from its TEXT (`TypeRef::new(schema.to_rust_type())` in responses.rs):
+      -- `Option<T>` / `Vec<T>` / `EventStream<T>` are opaque atoms of the response enum's node
+      else if viaResp then some "KnownResponseWrapperPayload" else none
   | .headerOptMismatch _ => some "KnownRequiredHeaderDefault"
   | .lengthNeedsSer _ _ => some "KnownLengthNeedsSerialize"
   | .dupParam _ => some "KnownRequestParamClash"
@@ -416,7 +421,7 @@ def explains : Viol → RErr → Bool
   | .undefinedType n, e => codeIn e.code ["E0425", "E0412", "E0433", "E0422"] && e.name == n
   | .privateAcross f n, e => codeIn e.code ["E0425", "E0412", "E0433", "E0422", "E0603"] && e.file == f && e.name == n
   | .headerOptMismatch it, e => e.ikind == "impl".toList && e.iname == it && codeIn e.code ["E0308"]
-  | .serde it tgt ser _ _, e =>
+  | .serde it tgt ser _ _ _, e =>
       -- at the holder itself, or DOWNSTREAM at a use site (parse_response / handler / IntoResponse bodies) that needs the same bound
       (codeIn e.code ["E0277"] && e.name == tgt && e.trait == (if ser then "Serialize".toList else "Deserialize".toList) &&
         (e.iname == it || e.ikind == "impl".toList || e.ikind == "fn".toList)) ||
